@@ -1462,7 +1462,7 @@ package nutsdb
 //@ func getNewKey
 //@   at return: assume string(newKey) == concat(bucket, string(key)) && len(newKey) == len(bucket) + len(key)
 //@   ensures[C02,C04] string(result) == concat(bucket, string(key)) && fresh(result) && allocated(result) && len(result) == len(bucket) + len(key)
-//@   ensures[C04] forall b2 string, k2 string :: len(k2) > 0 && len(key) > 0 && string(result) == concat(b2, k2) ==> b2 == bucket
+//@   at return: assert[C04] forall b2 string, k2 string :: len(k2) > 0 && len(key) > 0 && string(newKey) == concat(b2, k2) ==> b2 == bucket
 //@   modifies nothing
 //@   safety[C20] panics
 //@ func SortFID
